@@ -748,9 +748,70 @@ def gen_quic():
     return out
 
 
+def gen_auth():
+    """where authentication decisions are taken (C07): src/common/socks.rs, src/common/auth.rs, src/listeners/socks.rs,
+    src/listeners/http.rs, src/common/tls.rs, src/common/quic.rs, src/connectors/{http,socks,quic}.rs"""
+    def src(path):
+        return strip_rust(open(os.path.join(REPO, path)).read())
+    socks = src("src/common/socks.rs")
+    pa = block_after(socks, r"impl\s+SocksAuthServer\s*<\s*Option\s*<\s*\(\s*String\s*,\s*String\s*\)\s*>\s*>\s*for\s+PasswordAuth\s*\{")
+    sm = re.sub(r"\s+", "", fn_body(pa, "select_method"))
+    select_ok = sm.startswith("{ifmethods.contains(&SOCKS_AUTH_NONE)&&!self.required{Some(SOCKS_AUTH_NONE)}elseifmethods.contains(&SOCKS_AUTH_USRPWD){Some(SOCKS_AUTH_USRPWD)}else{None}")
+    auth = src("src/common/auth.rs")
+    ad = block_after(auth, r"impl\s+AuthData\s*\{")
+    ck = re.sub(r"\s+", "", fn_body(ad, "check"))
+    check_ok = ck == "{if!self.required{true}elseifletSome(user)=user{self.users.iter().any(|e|e.username==user.0&&e.password==user.1)||self.auth_cmd(user).await}else{false}}"
+    ac = fn_body(ad, "auth_cmd")
+    cmd_ok = before(ac, r"self\s*\.\s*cmd\s*\.\s*is_empty\s*\(\s*\)\s*\{\s*return\s+false", r"cache\s*\.\s*check") and \
+        before(ac, r"self\s*\.\s*cache\s*\.\s*check\s*\(\s*user\s*\)", r"Command\s*::\s*new") and bool(re.search(r"self\s*\.\s*cache\s*\.\s*set\s*\(\s*user\s*,\s*status\s*\.\s*success\s*\(\s*\)\s*\)", ac))
+    cache = block_after(auth, r"impl\s+Cache\s*\{")
+    cset = fn_body(cache, "set")
+    cache_ok = bool(re.search(r"data\s*\.\s*get\s*\(\s*user\s*\)", fn_body(cache, "check"))) and \
+        bool(re.search(r"sleep\s*\(\s*Duration\s*::\s*from_secs\s*\(\s*timeout\s*\)\s*\)", cset)) and bool(re.search(r"data\s*\.\s*remove\s*\(\s*&key\s*\)", cset))
+    sl = src("src/listeners/socks.rs")
+    hb = fn_body(sl, "handshake_request") if re.search(r"\bfn\s+handshake_request\b", sl) else fn_body(sl, "handshake")
+    chk = re.search(r"if\s*!\s*self\s*\.\s*auth\s*\.\s*check\s*\(\s*&request\s*\.\s*auth\s*\)\s*\.\s*await\s*\{", hb)
+    gate = False
+    if chk:
+        blk = block_after(hb[chk.start():], r"\.\s*await\s*\{")
+        gate = bool(re.search(r"return\s+Ok\s*\(\s*\(\s*\)\s*\)", blk)) and "enqueue" not in blk and "enqueue" not in hb[:chk.start()]
+    tls = src("src/common/tls.rs")
+    tsc = block_after(tls, r"impl\s+TlsServerConfig\s*\{")
+    init_uses = bool(re.search(r"with_client_cert_verifier\s*\(\s*client_auth\s*\)", fn_body(tsc, "init"))) and bool(re.search(r"let\s+client_auth\s*=\s*self\s*\.\s*client_auth\s*\(\s*\)\s*\?", fn_body(tsc, "init")))
+    ver = re.sub(r"\s+", "", fn_body(block_after(tls, r"impl\s+TlsClientVerifyConfig\s*\{"), "verifier"))
+    verifier_ok = "ifself.required{AllowAnyAuthenticatedClient::new(self.root_store()?)}else{AllowAnyAnonymousOrAuthenticatedClient::new(self.root_store()?)}" in ver
+    def uses_acceptor(path):
+        b = src(path)
+        return bool(re.search(r"options\s*\.\s*acceptor\s*\(\s*\)", b)) and bool(re.search(r"acceptor\s*\.\s*accept\s*\(\s*socket\s*\)", b))
+    quic = src("src/common/quic.rs")
+    qs = fn_body(quic, "create_quic_server")
+    quic_uses = bool(re.search(r"with_client_cert_verifier\s*\(\s*tls\s*\.\s*client_auth\s*\(\s*\)\s*\?\s*\)", qs)) and "with_no_client_auth" not in qs
+    tcc = block_after(tls, r"impl\s+TlsClientConfig\s*\{")
+    ci = re.sub(r"\s+", "", fn_body(tcc, "init"))
+    webpki = "ifself.insecure{config.with_custom_certificate_verifier(self.insecure_verifier())}else{config.with_custom_certificate_verifier(Arc::new(WebPkiVerifier::new(root_store,None)))}" in ci
+    names = []
+    for path in ("src/connectors/http.rs", "src/connectors/socks.rs"):
+        b = re.sub(r"\s+", "", src(path))
+        names.append("ServerName::try_from(self.server.as_str()).or_else(|e|{iftls_insecure{ServerName::try_from(\"\")}else{Err(e)}})" in b)
+    qc = re.sub(r"\s+", "", src("src/connectors/quic.rs"))
+    names.append("letserver=ifself.tls.insecure{\"\"}else{self.server.as_str()};" in qc)
+    B = lambda b: "true" if b else "false"
+    out = "(* GENERATED by gen/translate.py (authentication decision points).  Do not edit. *)\n"
+    out += "Definition select_method_shape : bool := %s.\n" % B(select_ok)
+    out += "Definition check_shape : bool := %s.\n" % B(check_ok and cmd_ok)
+    out += "Definition cache_keyed_by_exact_pair_and_expires : bool := %s.\n" % B(cache_ok)
+    out += "Definition socks_check_gates_every_enqueue : bool := %s.\n" % B(gate)
+    out += "Definition http_listener_uses_policy : bool := %s.\n" % B(init_uses and verifier_ok and uses_acceptor("src/listeners/http.rs"))
+    out += "Definition socks_listener_uses_policy : bool := %s.\n" % B(init_uses and verifier_ok and uses_acceptor("src/listeners/socks.rs"))
+    out += "Definition quic_listener_uses_policy : bool := %s.\n" % B(quic_uses and verifier_ok)
+    out += "Definition connectors_verify_unless_insecure : bool := %s.\n" % B(webpki)
+    out += "Definition connectors_use_configured_server_name : bool := %s.\n" % B(all(names))
+    return out
+
+
 def main(which=None):
     changed = []
-    gens = {"Gen_panics.v": lambda: gen_panics()[0], "Gen_profile.v": gen_profile, "Gen_ladder.v": gen_ladder, "Gen_reload.v": gen_reload, "Gen_lb.v": gen_lb, "Gen_callbacks.v": gen_callbacks, "Gen_relay.v": gen_relay, "Gen_startup.v": gen_startup, "Gen_locks.v": gen_locks, "Gen_udp.v": gen_udp, "Gen_quic.v": gen_quic}
+    gens = {"Gen_panics.v": lambda: gen_panics()[0], "Gen_profile.v": gen_profile, "Gen_ladder.v": gen_ladder, "Gen_reload.v": gen_reload, "Gen_lb.v": gen_lb, "Gen_callbacks.v": gen_callbacks, "Gen_relay.v": gen_relay, "Gen_startup.v": gen_startup, "Gen_locks.v": gen_locks, "Gen_udp.v": gen_udp, "Gen_quic.v": gen_quic, "Gen_auth.v": gen_auth}
     for name, fn in gens.items():
         if which and name not in which:
             continue
